@@ -129,11 +129,18 @@ let leaf ws = match ws with
       | _ -> Gen_IndexBase.coq_GetNextBucketIndex i b) in
     let buf = Buffer.create 256 in
     Buffer.add_string buf l;
+    let maxp = Array.make bc 0 in let exact = (kind = "O1" || kind = "O3") in
     Stdlib.List.iter (fun hstr ->
       let h = z_of_string hstr in
-      let i0 = Gen_IndexBase.coq_GetStartBucketIndex h zbc in
-      match Gen_HashSetMove.pvAddNogrow_loop0 full nexti (fun _ i -> i) (nat_of (bc + 1)) zbc z0 h i0 i0 z0 with
-      | GenPrelude.Ok (_, ((_, i), _)) -> let j = int_of_z i in cnt.(j) <- cnt.(j) + 1; Buffer.add_string buf (" " ^ string_of_int j)
+      let i0 = int_of_z (Gen_IndexBase.coq_GetStartBucketIndex h zbc) in
+      let total = Array.fold_left (+) 0 cnt in
+      (* the WHOLE generated pvAddNogrow (instantiation <false>): position, mCount, recorded UpdateMaxProbe argument *)
+      match Gen_HashSetMove.pvAddNogrow (z_of_int lg) z0 full nexti (fun hc b -> Gen_IndexBase.coq_GetStartBucketIndex hc b)
+              (fun _ _ _ _ _ _ -> z0) z0 (fun _ i -> i) (fun i _ _ -> i) (fun _ -> zbc) (z_of_int total) z0 z0 z0 z0 h z0 with
+      | GenPrelude.Ok ((i, mc'), rmp) ->
+        let j = int_of_z i in cnt.(j) <- cnt.(j) + 1;
+        if int_of_z rmp > maxp.(i0) then maxp.(i0) <- int_of_z rmp;
+        Buffer.add_string buf (Printf.sprintf " %d/%s/%s" j (string_of_z mc') (if exact then string_of_int maxp.(i0) else "-"))
       | GenPrelude.Exn -> Buffer.add_string buf " F"
       | _ -> Buffer.add_string buf " ?") hs;
     let total = Array.fold_left (+) 0 cnt in
